@@ -170,7 +170,13 @@ async fn execute_multi_command_pipeline<S: Runtime + 'static>(
                 run_exit_trap(env).await;
             })
             .await;
-        pids.push(pid_or_fail(env, start_result).await?);
+        match pid_or_fail(env, start_result).await {
+            Continue(pid) => pids.push(pid),
+            Break(divert) => {
+                pipes.close_all(env);
+                return Break(divert);
+            }
+        }
     }
 
     shift_or_fail(env, &mut pipes, false).await?;
@@ -285,10 +291,32 @@ impl PipeSet {
 
         self.next = None;
         if has_next {
-            self.next = Some(env.system.pipe()?);
+            match env.system.pipe() {
+                Ok(pipe) => self.next = Some(pipe),
+                Err(errno) => {
+                    // Don't leave the remaining FD open when giving up
+                    self.close_all(env);
+                    self.read_previous = None;
+                    return Err(errno);
+                }
+            }
         }
 
         Ok(())
+    }
+
+    /// Closes all the FDs in the pipe set.
+    ///
+    /// This function is used to clean up the FDs open in the current process
+    /// when the pipeline cannot be set up any further.
+    fn close_all<S: Close>(self, env: &mut Env<S>) {
+        if let Some(fd) = self.read_previous {
+            let _ = env.system.close(fd);
+        }
+        if let Some((reader, writer)) = self.next {
+            let _ = env.system.close(reader);
+            let _ = env.system.close(writer);
+        }
     }
 
     /// Moves the pipe FDs to stdin/stdout and closes the FDs that are no longer
